@@ -6,6 +6,9 @@ package main
 
 import (
 	"fmt"
+	"github.com/lindb/lindb/series/metric"
+	"github.com/lindb/lindb/sql/stmt"
+	"github.com/lindb/roaring"
 	"os"
 	"path/filepath"
 	"sort"
@@ -89,11 +92,37 @@ func nameOf(e int, fresh bool) string {
 	return "m0"
 }
 
+// every entry is a series of its own tag value (three per metric name)
+func hostOf(e int) string { return fmt.Sprintf("h%d", e%3) }
+
+// seriesOfTag: the series the index gives for metric + host=<v>: tag key of the schema, tag value id of the dictionary,
+// postings of the inverted index - the way a query with a tag condition finds its data
+func (w *world) seriesOfTag(mid uint32, host string) *roaring.Bitmap {
+	schema, err := w.n.DB.MetaDB().GetSchema(metric.ID(mid))
+	if err != nil || schema == nil {
+		return roaring.New()
+	}
+	tm, ok := schema.TagKeys.Find("host")
+	if !ok {
+		return roaring.New()
+	}
+	vids, err := w.n.DB.MetaDB().FindTagValueDsByExpr(tm.ID, &stmt.EqualsExpr{Key: "host", Value: host})
+	if err != nil || vids == nil || vids.IsEmpty() {
+		return roaring.New()
+	}
+	sids, err := w.n.Shard.IndexDB().GetSeriesIDsByTagValueIDs(tm.ID, vids)
+	if err != nil || sids == nil {
+		return roaring.New()
+	}
+	return sids
+}
+
 func (w *world) appendEntry(fresh bool) {
 	w.la++
 	e := w.la
 	w.fresh[e] = fresh
 	pm := &protoMetricsV1.Metric{Name: nameOf(e, fresh), Namespace: "ns", Timestamp: familyTime + int64(e)*interval.Int64(),
+		Tags:         []*protoMetricsV1.KeyValue{{Key: "host", Value: hostOf(e)}},
 		SimpleFields: []*protoMetricsV1.SimpleField{{Name: "f1", Type: protoMetricsV1.SimpleFieldType_DELTA_SUM, Value: 1}}}
 	if err := w.n.Part.WriteLog(node.Compressed(node.Block(pm))); err != nil {
 		w.fail("WriteLog", err)
@@ -132,7 +161,7 @@ func (w *world) flushed() (map[int]int, []int) {
 				w.fail("decode", err)
 				continue
 			}
-			for _, fmv := range d.Series {
+			for sid, fmv := range d.Series {
 				for _, slots := range fmv {
 					for slot, v := range slots {
 						e := int(slot)
@@ -140,6 +169,8 @@ func (w *world) flushed() (map[int]int, []int) {
 						id, err := w.n.DB.MetaDB().GetMetricID("ns", nameOf(e, w.fresh[e]))
 						if err != nil || uint32(id) != metricID {
 							bad[e] = true
+						} else if !w.seriesOfTag(metricID, hostOf(e)).Contains(sid) {
+							bad[e] = true // stored under a series the entry's tags do not lead to
 						}
 					}
 				}
@@ -246,6 +277,45 @@ func (w *world) flushData(crashAfterCommit bool) {
 		return
 	}
 	w.afterFlush(filesBefore, crashAfterCommit, img)
+}
+
+// metaFlushCrash: the metadata is flushed, the shard index flush dies right after its k-th store commit (the node restarts
+// from the directory as it is then). For the model: the metadata + index flush, then a restart - what the index lost is
+// rebuilt by the replay of the log.
+func (w *world) metaFlushCrash(k int) {
+	if err := w.n.DB.FlushMeta(); err != nil {
+		w.fail("meta flush", err)
+		return
+	}
+	w.n.DB.WaitFlushMetaCompleted()
+	img := ""
+	commits := 0
+	verifhook.Set(func(p string) {
+		if p == "kv.flush.afterCommit" {
+			commits++
+			if commits == k && img == "" {
+				w.gen++
+				img = filepath.Join(w.root, fmt.Sprintf("img%d", w.gen))
+				if err := w.n.Image(img); err != nil {
+					w.fail("image", err)
+				}
+			}
+		}
+		hook(p)
+	})
+	err := w.n.Shard.FlushIndex()
+	w.n.Shard.WaitFlushIndexCompleted()
+	verifhook.Set(hook)
+	if err != nil {
+		w.fail("index flush", err)
+		return
+	}
+	w.emit("MetaFlush")
+	if img != "" && !w.failed {
+		w.out.Count("crash-inside-the-index-flush")
+		w.restartFrom(img)
+		w.emit("Restart")
+	}
 }
 
 // otherHour: a write into another hour of the same day - a data family (and kv family of the day's store) that did not
@@ -401,6 +471,10 @@ func runHistory(out *vh.Out, root string, id int, name, sig string, disc bool, s
 				w.fail("meta/index flush", err)
 			}
 			w.emit("MetaFlush")
+		case "M":
+			if w.actor == nil && w.pendingFlush == nil {
+				w.metaFlushCrash(1 + w.kinds["MetaFlush"]%3)
+			}
 		case "f":
 			w.flushData(false)
 		case "F":
@@ -488,8 +562,11 @@ func randomScript(r *vh.Rand) []string {
 			sc = append(sc, "m", "f")
 		case x < 82:
 			sc = append(sc, "m", "F")
-		case x < 86:
+		case x < 84:
 			sc = append(sc, "m")
+		case x < 86:
+			// the index flush dies after one of its store commits
+			sc = append(sc, "M")
 		case x < 89:
 			sc = append(sc, "s")
 		case x < 91:
@@ -524,19 +601,21 @@ func main() {
 	}
 	runHistory(out, root, 0, "crash at every stage of a flush, sync, replay", "", true, f("a a r r m F r r a r m f s x r a A r m f s a r b x r a r m f a r b x"))
 	runHistory(out, root, 1, "a flush freezes the memory database while a replica step holds it (lost write)", "flush-inside-replica-step-lost-write", true,
-		f("a a a r m r1 f r2 r3 r m f"))
+		f("a a a r r r m f a a a r m r1 f r2 r3 r m f")) // the three series exist before the part that matters
 	runHistory(out, root, 2, "a flush falls between the row write and CommitSequence (double application)", "flush-inside-replica-step-double-apply", true,
-		f("a a r m r1 r2 f r3 x r m f"))
+		f("a a a r r r m f a a r m r1 r2 f r3 x r m f"))
 	runHistory(out, root, 3, "a new metric is written after the metadata flush and before the data flush", "new-name-between-meta-and-data-flush", false,
 		f("a r m A r f x A r"))
 	runHistory(out, root, 5, "another hour of the day is first written after a restart, flushed, then another restart", "", true,
 		f("a a r r m f a a r x r r o a r m f x r a r o m f x"))
 	runHistory(out, root, 6, "two families of the shard get their memory databases at the same moment; the other one is flushed first", "", true,
 		f("a r m f x a r o m f x a r o a r m f"))
+	runHistory(out, root, 7, "the index flush dies after its first / second / third store commit, the log is replayed", "", true,
+		f("a r M r a r m f x a A r M r r a r M r m f x"))
 	runHistory(out, root, 4, "entries the replicator cannot decode, between applied entries, directly after the acknowledged position, before a crash", "", true,
 		f("a a z a r r r r x r r r r m f z r s x a z z a r r r r m f s x"))
 	for i := 0; i < cfg.N; i++ {
-		runHistory(out, root, 7+i, "random", "", true, randomScript(r))
+		runHistory(out, root, 8+i, "random", "", true, randomScript(r))
 	}
 	out.Notes = append(out.Notes, "every history ends with a crash image, a replay of everything the log still offers, and a flush in the flush checker's order; a crash is a copy of the node directory (tsdb + wal) opened as a new node")
 	out.Finish()
